@@ -1127,3 +1127,20 @@ pub fn generate(seed: u64, focus: Focus, faults: bool) -> RunDesc {
         variant,
     }
 }
+
+/// A whole generated root document (all components in one `definitions` map,
+/// sometimes with a titled root) and the names of its definitions; used by
+/// the process-level engines as a workload.
+pub fn gen_document(seed: u64, with_defaults: bool) -> (Value, Vec<String>) {
+    let mut rng = Rng::new(seed);
+    let mut sw = Swarm::draw(&mut rng.fork(), Focus::Compile, false);
+    sw.defaults = if with_defaults { 1 } else { 0 };
+    sw.n_components = rng.range(1, 3);
+    let mut crng = rng.fork();
+    let comps: Vec<Component> = (0..sw.n_components).map(|i| gen_component(&mut crng, &sw, i)).collect();
+    let refs: Vec<&Component> = comps.iter().collect();
+    let titled = if rng.chance(1, 2) { Some("DocRoot".to_string()) } else { None };
+    let doc = root_doc(&mut rng, &refs, titled);
+    let names = comps.iter().flat_map(|c| c.defs.iter().map(|d| d.0.clone())).collect();
+    (doc, names)
+}
